@@ -48,6 +48,9 @@ func SegmenterByName(name string, seed int64) Segmenter {
 	return Whole
 }
 
+// ErrWouldBlock is returned by Read of a NoBlock stream that has nothing to deliver.
+var ErrWouldBlock = errors.New("transport: read would block (the reader wants more bytes than were written)")
+
 // ErrInjected is the class of injected faults; each injection gets its own value.
 type ErrInjected struct{ What string }
 
@@ -76,6 +79,11 @@ type Stream struct {
 
 	Writes [][]byte // the payload of every successful Write call, in order
 	Record bool
+
+	// NoBlock makes Read return ErrWouldBlock instead of waiting when nothing is available:
+	// for single-goroutine replays in which everything the reader may need was written before,
+	// so that a reader wanting more (a desynchronised decoder) fails at once instead of hanging.
+	NoBlock bool
 }
 
 // NewStream creates a stream.
@@ -158,6 +166,9 @@ func (s *Stream) Read(p []byte) (int, error) {
 		}
 		if s.closed {
 			return 0, io.EOF
+		}
+		if s.NoBlock {
+			return 0, ErrWouldBlock
 		}
 		s.cond.Wait()
 	}
